@@ -104,6 +104,49 @@ def gen_font_case(rng, i):
     return {"glyphs": glyphs, "glyphOrder": order}
 
 
+def renamed_cmap_section(ctx):
+    """with production names (a collision on one name plus a LATER glyph literally carrying the de-duplicated name) every code
+    point must still reach the glyph INDEX of the source glyph that declares it, in the 16-bit and the 32-bit subtables, also
+    after save and reload; and the glyph order keeps its length"""
+    import ufo2ft
+    from fontTools.ttLib import TTFont
+    for i in range(ctx.budget(4, 16)):
+        lib = ["ufoLib2", "defcon"][i % 2]
+        flavor = ["ttf", "otf"][(i // 2) % 2]
+        names = ["A", "A-cy", "A.1", "B", "A.1.1"][: 4 + i % 2]
+        cps = {"A": [0x41], "A-cy": [0x410], "A.1": [0x1D00, 0x1D434], "B": [0x42], "A.1.1": [0x1F600]}
+        glyphs = [{"name": n, "unicodes": cps[n], "width": 500 + 10 * k, "components": [], "anchors": [],
+                   "contours": [[(0, 0, "line"), (100 + k, 0, "line"), (50, 100, "line")]]} for k, n in enumerate(names)]
+        desc = {"glyphs": glyphs, "glyphOrder": list(names), "lib": {"public.postscriptNames": {"A": "A", "A-cy": "A"}}}
+        case = {"font": jsonable(desc), "lib": lib, "flavor": flavor, "level": "cmap under production names"}
+        ctx.count(); ctx.klass("renamed: code points by glyph index/" + flavor); ctx.nontriv(("rcmap", i, ctx.scale))
+        try:
+            tt = (ufo2ft.compileTTF if flavor == "ttf" else ufo2ft.compileOTF)(build_font(desc, lib), useProductionNames=True)
+            mem = tt.getGlyphOrder()
+            if len(mem) != len(names) + 1 or len(set(mem)) != len(mem):
+                ctx.spec_failure(dict(case, glyph_order=mem), "the compiled font's glyph order %r does not name each of the %d "
+                                 "glyphs exactly once" % (mem, len(names) + 1))
+                continue
+            buf = io.BytesIO(); tt.save(buf); buf.seek(0); tt = TTFont(buf)
+        except Exception as e:
+            ctx.spec_failure(case, "compile raised %s: %s\n%s" % (type(e).__name__, e, traceback.format_exc()[-1000:]))
+            continue
+        order = tt.getGlyphOrder()
+        if len(order) != len(names) + 1 or len(set(order)) != len(order):
+            ctx.spec_failure(dict(case, glyph_order=order), "glyph order %r: not one unique name per source glyph" % order)
+            continue
+        want = {u: k + 1 for k, n in enumerate(names) for u in cps[n]}
+        for st in tt["cmap"].tables:
+            if not st.isUnicode():
+                continue
+            got = {u: order.index(g) for u, g in st.cmap.items()}
+            exp = {u: k for u, k in want.items() if st.format != 4 or u <= 0xFFFF}
+            if got != exp:
+                ctx.spec_failure(dict(case, subtable=(st.platformID, st.platEncID, st.format), glyph_order=order),
+                                 "cmap format %d maps code points to glyph indices %r, the source says %r" % (st.format, got, exp))
+                break
+
+
 def observe_compiled(desc, flavor, lib, explicit_order):
     import ufo2ft
     from fontTools.ttLib import TTFont
@@ -144,6 +187,7 @@ def observe_compiled(desc, flavor, lib, explicit_order):
 
 
 def explore(ctx):
+    renamed_cmap_section(ctx)
     # ---- function level
     cases, meta = [], []
     n = ctx.budget(300, 3000)
